@@ -249,7 +249,7 @@ where
         let mut map = HashMap::new();
         let mut old_seq = Vec::new();
         let mut new_seq = Vec::new();
-        let mut next_id = Int::default();
+        let mut last_id: Option<Int> = None;
         let step = Int::from(1);
         let old_start = old_range.start;
         let new_start = new_range.start;
@@ -259,8 +259,11 @@ where
             let id = match map.entry(item) {
                 Entry::Occupied(o) => *o.get(),
                 Entry::Vacant(v) => {
-                    let id = next_id;
-                    next_id = next_id + step;
+                    let id = match last_id {
+                        Some(last) => last + step,
+                        None => Int::default(),
+                    };
+                    last_id = Some(id);
                     *v.insert(id)
                 }
             };
@@ -272,8 +275,11 @@ where
             let id = match map.entry(item) {
                 Entry::Occupied(o) => *o.get(),
                 Entry::Vacant(v) => {
-                    let id = next_id;
-                    next_id = next_id + step;
+                    let id = match last_id {
+                        Some(last) => last + step,
+                        None => Int::default(),
+                    };
+                    last_id = Some(id);
                     *v.insert(id)
                 }
             };
